@@ -3,7 +3,8 @@ package main
 // Structural rules: obligations decided by complete enumeration over the SSA program.
 //
 //   rule[Cxx] writers (*T).f : F1, F2          every write (store or atomic store/swap/cas/add) to field f of a
-//                                               pre-existing T happens in one of the listed functions
+//                                               pre-existing T happens in one of the listed functions; an item
+//                                               "F via M" also fixes the atomic method used in F (CompareAndSwap ...)
 //   rule[Cxx] callers F : pkgsuffix-or-func...  every static call of F and every interface call that can dispatch
 //                                               to F sits in a listed package (path suffix) or function
 //   rule[Cxx] mutators (*T) via I.m1, I.m2      every method of *T from which a call of one of the interface
@@ -85,6 +86,7 @@ func (p *Prog) ruleWriters(r *Rule) []RuleResult {
 		for _, b := range fn.Blocks {
 			for _, in := range b.Instrs {
 				write := false
+				writeMethod := "store"
 				switch in := in.(type) {
 				case *ssa.Store:
 					write = isTarget(in.Addr)
@@ -97,9 +99,11 @@ func (p *Prog) ruleWriters(r *Rule) []RuleResult {
 						}
 						if strings.HasPrefix(name, "(*sync/atomic.") && !strings.HasSuffix(name, ").Load") {
 							write = true
+							writeMethod = name[strings.LastIndex(name, ".")+1:]
 						}
 						if strings.HasPrefix(name, "sync/atomic.") && !strings.HasPrefix(name, "sync/atomic.Load") {
 							write = true
+							writeMethod = strings.TrimPrefix(name, "sync/atomic.")
 						}
 					}
 				}
@@ -109,7 +113,13 @@ func (p *Prog) ruleWriters(r *Rule) []RuleResult {
 				n++
 				ok := false
 				for _, a := range allowed {
-					if relKey(fn) == a && fnPkgPath(fn) == r.Pkg {
+					// "F via M": in F the write must be the atomic read-modify-write M (e.g. CompareAndSwap), the
+					// only way to decide a race between two finishers
+					via := ""
+					if j := strings.Index(a, " via "); j >= 0 {
+						a, via = strings.TrimSpace(a[:j]), strings.TrimSpace(a[j+5:])
+					}
+					if relKey(fn) == a && fnPkgPath(fn) == r.Pkg && (via == "" || via == writeMethod) {
 						ok = true
 					}
 				}
